@@ -25,7 +25,7 @@ func init() {
 		c01DeepChild(spec)
 		os.Exit(0)
 	}
-	register(&Prop{ID: "C01", Module: "V.C01.Check", Gen: c01Gen, Quick: 1200, Thorough: 30000, Shard: 60})
+	register(&Prop{ID: "C01", Module: "V.C01.Check", Gen: c01Gen, Quick: 900, Thorough: 30000, Shard: 60})
 }
 
 // ---------------------------------------------------------------- guarded calls
@@ -50,9 +50,16 @@ func c01Guard(n int, f func()) string {
 	case s := <-done:
 		return s
 	case <-time.After(c01Limit(n)):
+		c01Timeouts++
 		return fmt.Sprintf("no answer within %v (input of %d bytes)", c01Limit(n), n)
 	}
 }
+
+// c01Timeouts counts calls that did not answer; after a few of them the generator stops early (every further
+// non-terminating call would cost its full time bound, and the abandoned goroutines keep spinning).
+var c01Timeouts int
+
+func c01GiveUp() bool { return c01Timeouts >= 3 }
 
 // ---------------------------------------------------------------- tree rendering
 
@@ -352,7 +359,7 @@ var c01Corpus = []string{
 	"# c", "#", "# a\n# b\n\n# c\nx", "a # c", "a: b # c\n  # d\n", "a: ;", ": x", ":", "a:", "a: \n", "a.b.c", "a.", "a . b", "\"a\".'b'.c: \"d\"", "\"abc", "'abc", "\"a\\", "a\\", "a: \"x\ny",
 	"a: null", "a: TRUE", "a: suspend", "a: 1.5", "a: 1/3", "a: 0x10", "a: -", "-", "a-", "a--", "a ->", "a: b; c: d;; e", "a b c", "\"x\" y", "a: 'b' c",
 	"a:\n  b", "a\n\n\nb", "x: {\n  y: {\n    z: 1 # c\n  }\n}\n", "\\", "a\\\nb", "a: b\\", "$", "a: $", "a: ${b}", "|", "a: |md x|", "\"\"\"", "\"\"\" x \"\"\"", "...", "...a", "...@x", "...${x}",
-	"&a", "!&a", "(a -> b)", "(", ")", "a)", "a -> b", "<-", "*", "@", "@x", "a: @x", "a.@x",
+	"&a", "!&a", "(a -> b)", "(", ")", "a)", "a -> b", "<-", "*", "@", "@x", "a: @x", "a.@x", "a: @", "...@", "x: @\n", "x: [...@]",
 }
 
 func c01Runs(r *Rng) []byte {
@@ -372,6 +379,9 @@ func c01Gen(r *Rng, tier string, n int) []Case {
 	var cases []Case
 	// fixed corpus through all four entry points
 	for _, s := range c01Corpus {
+		if c01GiveUp() {
+			break
+		}
 		cases = append(cases, c01ParseCase([]byte(s), "corpus"))
 		for w := 1; w <= 3; w++ {
 			cases = append(cases, c01EntryCase(w, s, "corpus-entry"))
@@ -397,6 +407,9 @@ func c01Gen(r *Rng, tier string, n int) []Case {
 
 	repo := c02RepoSources()
 	for budget := n; budget > 0; budget-- {
+		if c01GiveUp() {
+			break
+		}
 		switch x := r.Intn(100); {
 		case x < 34:
 			cases = append(cases, c01ParseCase([]byte(c01GenFrag(r, 0)), "frag"))
@@ -455,6 +468,9 @@ func c01Gen(r *Rng, tier string, n int) []Case {
 		step = 1
 	}
 	for i := 0; i < len(repo); i += step {
+		if c01GiveUp() {
+			break
+		}
 		cases = append(cases, c01ParseCase([]byte(repo[i]), "repo-all"))
 	}
 	_ = utf8.RuneError
